@@ -7,7 +7,12 @@ ares_queue_wait_empty() all go through this function.
 For normalised times (0 ≤ usec < 1000000):
 * `remaining_normalised`: the result is normalised and non-negative (no negative timeout hint, whatever the clock says);
 * `remaining_value`: in microseconds it is exactly max(0, tout - now): never later than the deadline, never earlier;
-* `remaining_expired` / `remaining_zero_iff`: an overdue (or due) deadline gives exactly (0, 0), and only such a deadline does.
+* `remaining_expired` / `remaining_zero_iff`: an overdue (or due) deadline gives exactly (0, 0), and only such a deadline does;
+* `remaining_reaches_deadline`: now + time left = deadline for a deadline not yet passed (sleeping it out lands on the deadline);
+* `remaining_antitone_now` / `remaining_monotone_deadline`: the time left never grows as the clock advances and is ordered like
+  the deadlines (the earliest deadline gives the shortest sleep);
+* `remaining_after_elapsed`: asking again after d microseconds gives exactly max(0, left - d) — an early wake-up neither loses
+  nor gains time.
 -/
 import CaresModel.Generated.Timeval
 namespace Cares.C07c
@@ -61,10 +66,44 @@ theorem remaining_zero_iff (ns nu ts tu : Int) (hn : Norm nu) (ht : Norm tu) :
     omega
   · exact remaining_expired ns nu ts tu hn ht
 
+/-- sleeping exactly the time left lands exactly on the deadline (never before it, never past it) -/
+theorem remaining_reaches_deadline (ns nu ts tu : Int) (hn : Norm nu) (ht : Norm tu) (h : us ns nu ≤ us ts tu) :
+    us ns nu + us (remaining ns nu ts tu).1 (remaining ns nu ts tu).2 = us ts tu := by
+  have hv := remaining_value ns nu ts tu hn ht
+  omega
+
+/-- as the clock advances the time left never grows: a later `now` cannot produce a longer sleep for the same deadline -/
+theorem remaining_antitone_now (ns nu ns' nu' ts tu : Int) (hn : Norm nu) (hn' : Norm nu') (ht : Norm tu)
+    (h : us ns nu ≤ us ns' nu') :
+    us (remaining ns' nu' ts tu).1 (remaining ns' nu' ts tu).2 ≤ us (remaining ns nu ts tu).1 (remaining ns nu ts tu).2 := by
+  have hv := remaining_value ns nu ts tu hn ht
+  have hv' := remaining_value ns' nu' ts tu hn' ht
+  omega
+
+/-- an earlier deadline never gets the longer wait: the time left is monotone in the deadline, so taking the
+    earliest deadline (ares_timeout's choice) gives the shortest sleep -/
+theorem remaining_monotone_deadline (ns nu ts tu ts' tu' : Int) (hn : Norm nu) (ht : Norm tu) (ht' : Norm tu')
+    (h : us ts tu ≤ us ts' tu') :
+    us (remaining ns nu ts tu).1 (remaining ns nu ts tu).2 ≤ us (remaining ns nu ts' tu').1 (remaining ns nu ts' tu').2 := by
+  have hv := remaining_value ns nu ts tu hn ht
+  have hv' := remaining_value ns nu ts' tu' hn ht'
+  omega
+
+/-- after the clock has moved by `d` microseconds (to any normalised reading), the time left has shrunk by exactly
+    min(d, what was left): waking early and asking again never loses or gains time -/
+theorem remaining_after_elapsed (ns nu ns' nu' ts tu : Int) (hn : Norm nu) (hn' : Norm nu') (ht : Norm tu)
+    (h : us ns nu ≤ us ns' nu') :
+    us (remaining ns' nu' ts tu).1 (remaining ns' nu' ts tu).2 =
+      max 0 (us (remaining ns nu ts tu).1 (remaining ns nu ts tu).2 - (us ns' nu' - us ns nu)) := by
+  have hv := remaining_value ns nu ts tu hn ht
+  have hv' := remaining_value ns' nu' ts tu hn' ht
+  omega
+
 /-! non-vacuity, incl. the case of seed C07-4: deadline in an earlier second with a larger microsecond part -/
 example : remaining 101 100000 100 800000 = (0, 0) := by decide
 example : remaining 100 800000 101 100000 = (0, 300000) := by decide
 example : remaining 100 100000 102 800000 = (2, 700000) := by decide
 example : remaining 100 500000 100 500000 = (0, 0) := by decide
+example : us 100 800000 + us (remaining 100 800000 101 100000).1 (remaining 100 800000 101 100000).2 = us 101 100000 := by decide
 
 end Cares.C07c
